@@ -55,7 +55,10 @@ NEUTRAL_GROUPS = {"R1": ("C01", "C02", "C05", "C13"), "R2": ("C03", "C04", "C12"
                   "Q4": ("C11", "C07", "C08", "C19", "C20"), "Q5": ("C15", "C18", "C13"),
                   # third set, written against the functions the round-4 rules look at
                   "S1": ("C01", "C02", "C05"), "S2": ("C03", "C06", "C12", "C13", "C14"), "S3": ("C08", "C11", "C16", "C19"),
-                  "S4": ("C09", "C10", "C15", "C18"), "S5": ("C04", "C07", "C17", "C20")}
+                  "S4": ("C09", "C10", "C15", "C18"), "S5": ("C04", "C07", "C17", "C20"),
+                  # fourth set, written against the functions the round-5/6 rules and the later fixes look at
+                  "T1": ("C01", "C02", "C05"), "T2": ("C03", "C04", "C06", "C12", "C13", "C14"), "T3": ("C08", "C11", "C16", "C20"),
+                  "T4": ("C09", "C10", "C15", "C18"), "T5": ("C06", "C07", "C13", "C17", "C19")}
 
 
 def corpus(prop):
